@@ -1137,6 +1137,39 @@ Proof.
   split; [auto|]. split; [auto|]. eapply run_nothing_after_raise; eauto.
 Qed.
 
+(* the whole program: the platform log of the evaluation, then at most the test summary *)
+Lemma test_report_stopped s : st_stopped (test_report s) = st_stopped s.
+Proof. unfold test_report. destruct (Nat.eqb (st_total s) 0); reflexivity. Qed.
+
+Theorem run_program_nothing_after_stop fuel P s o s2 :
+  st_check_after_yield s = true -> st_stopped s = false -> run_program fuel P s = (o, s2) ->
+  exists r s1 l tail,
+    Run (program_m fuel P) s r s1 l /\
+    st_trace s2 = tail ++ rev (effects l) ++ st_trace s /\ summary_tail tail /\
+    yields_of l = seq (st_yields s) (st_yields s2 - st_yields s) /\
+    ((st_stopped s2 = false /\ ~ In IRaise l)
+     \/ (st_stopped s2 = true /\ o = OErr EStopped /\ exists l0, l = l0 ++ [IRaise] /\ ~ In IRaise l0)).
+Proof.
+  intros Ck St E. unfold run_program in E. fold (program_m fuel P) in E.
+  destruct (program_m fuel P s) as [r s1] eqn:E1.
+  destruct (nothing_after_stop_log _ _ (built_program_m fuel P) _ _ _ Ck St E1) as (l & HR & T & Y & D).
+  exists r, s1, l.
+  assert (Hs2 : (s2 = s1 \/ s2 = test_report s1) /\ o = match r with Er e => OErr e | Ok _ => o end).
+  { destruct r as [u|e]; [destruct (Nat.ltb _ _)|destruct e]; inversion E; subst; auto. }
+  destruct Hs2 as (Hs2 & Ho).
+  assert (Hf : st_stopped s2 = st_stopped s1 /\ st_yields s2 = st_yields s1 /\
+               exists tail, st_trace s2 = tail ++ st_trace s1 /\ summary_tail tail).
+  { destruct Hs2 as [->| ->].
+    - repeat split; auto. exists []. split; [reflexivity|left; reflexivity].
+    - rewrite test_report_stopped, test_report_yields. repeat split; auto.
+      destruct (test_report_trace s1) as [->|(txt & ->)].
+      + exists []. split; [reflexivity|left; reflexivity].
+      + exists [EvPrint [PStr txt]]. split; [reflexivity|right; eauto]. }
+  destruct Hf as (Hst & Hy & tail & Ht & Hsum).
+  exists tail. rewrite Ht, T, Hst, Hy. split; [exact HR|]. repeat split; auto.
+  destruct D as [?|(S1 & -> & Rest)]; [left; auto|right]. split; [auto|]. split; [exact Ho|exact Rest].
+Qed.
+
 (* ---------- the flag raised in the first yield of a node ---------- *)
 (* Every yield of a run is the prologue of some node (eval_expr / exec_stmt /
    exec_block / the program node).  With the corrected order the node entered
